@@ -261,10 +261,12 @@ Qed.
 
 Lemma rp_add_order s o :
   R s -> o_id o = length (s_orders s) -> o_fb o = 0 -> o_fq o = 0 -> o_fee o = 0 -> 0 <= o_amount o ->
+  fst (o_pair o) <> snd (o_pair o) ->
   rp (add_order c s o).
 Proof.
-  intros H Hid Hb Hq Hf Ha. unfold add_order.
-  destruct (estimate_required c s o) as [req|e]; cbn [lift obind]; [|exact H].
+  intros H Hid Hb Hq Hf Ha Hpd. unfold add_order.
+  destruct (estimate_required c s o) as [req|e] eqn:Ereq; cbn [lift obind]; [|exact H].
+  pose proof (estimate_req_form _ _ _ _ Ereq) as Hrf.
   destruct (vnonempty req) eqn:Ev.
   - assert (B : rpf s (if o_ab o then borrow_loop c s (shorts_of (s_acct s) req) [] else Done s [])).
     { destruct (o_ab o); [apply rpf_borrow_loop; exact H | split; [exact H | apply fr_refl]]. }
@@ -276,7 +278,8 @@ Proof.
                          (o_fee o) (o_hit o) (o_ab o) (o_ar o) lids (o_fills o)).
       assert (P : prim c s1 (set_orders (if vnonempty req then set_holds s2 (holds_set (s_holds s2) (o_id o') req) else s2)
                                         (s_orders s1 ++ [o']))).
-      { eapply (PAccept c s1 req s2 o' tt); [rewrite Ev; exact E | | | | |]; cbn [o' o_id o_fb o_fq o_fee o_amount]; try assumption.
+      { eapply (PAccept c s1 req s2 o' tt); [rewrite Ev; exact E | | | | | | |];
+          cbn [o' o_id o_fb o_fq o_fee o_amount o_pair]; try assumption.
         rewrite Fo. exact Hid. }
       rewrite Ev in P. apply upd_acct_done in E. destruct E as (a' & _ & ->).
       pose proof (R_prim_app _ _ [o'] H1 P eq_refl) as H3.
@@ -288,7 +291,8 @@ Proof.
                        (o_fee o) (o_hit o) (o_ab o) (o_ar o) [] (o_fills o)).
     assert (P : prim c s (set_orders (if vnonempty req then set_holds s (holds_set (s_holds s) (o_id o') req) else s)
                                      (s_orders s ++ [o']))).
-    { eapply (PAccept c s req s o' tt); [rewrite Ev; reflexivity | | | | |]; cbn [o' o_id o_fb o_fq o_fee o_amount]; assumption. }
+    { eapply (PAccept c s req s o' tt); [rewrite Ev; reflexivity | | | | | | |];
+        cbn [o' o_id o_fb o_fq o_fee o_amount o_pair]; assumption. }
     rewrite Ev in P. pose proof (R_prim_app _ _ [o'] H P eq_refl) as H3.
     eapply R_neutral; [exact H3|].
     unfold push_update; cbn; destruct (s_now s); unfold neutral; cbn; repeat split; reflexivity.
@@ -300,12 +304,12 @@ Proof.
   apply Qle_bool_false in E. lra.
 Qed.
 
-Lemma rp_create_order s k op p amount ab ar : R s -> rp (create_order c s k op p amount ab ar).
+Lemma rp_create_order s k op p amount ab ar : fst p <> snd p -> R s -> rp (create_order c s k op p amount ab ar).
 Proof.
-  intros H. unfold create_order.
+  intros Hpd H. unfold create_order.
   destruct (get_pair_info c p) as [pi|e]; cbn [lift obind]; [|exact H].
   destruct (validate pi k amount) as [u|e] eqn:Ev; cbn [lift obind]; [|exact H].
-  apply rp_add_order; cbn [o_id o_fb o_fq o_fee o_amount]; try reflexivity; [exact H|].
+  apply rp_add_order; cbn [o_id o_fb o_fq o_fee o_amount o_pair]; try reflexivity; [exact H | | exact Hpd].
   eapply validate_pos; exact Ev.
 Qed.
 
@@ -468,7 +472,12 @@ Proof.
 Qed.
 
 Definition cfg_ok : Prop := match c_liq c with VolShare lp _ => 0 <= lp | InfLiq => True end.
-Definition op_ok (o : op) : Prop := match o with OBar _ _ b => 0 <= b_volume b | _ => True end.
+Definition op_ok (o : op) : Prop :=
+  match o with
+  | OBar _ _ b => 0 <= b_volume b
+  | OCreate _ _ p _ _ _ => fst p <> snd p          (* a pair trades two different symbols *)
+  | _ => True
+  end.
 
 Lemma rp_on_bar s p when b : cfg_ok -> 0 <= b_volume b -> R s -> rp (on_bar c s p when b).
 Proof.
@@ -497,7 +506,7 @@ Lemma R_step s o : cfg_ok -> op_ok o -> R s -> R (fst (step c s o)).
 Proof.
   intros Hc Ho H. destruct o; cbn [step op_ok] in *.
   - pose proof (rp_on_bar s p when b Hc Ho H) as X. destruct (on_bar c s p when b); exact X.
-  - pose proof (rp_create_order s k o p amount ab ar H) as X. destruct (create_order _ _ _ _ _ _ _ _); exact X.
+  - pose proof (rp_create_order s k o p amount ab ar Ho H) as X. destruct (create_order _ _ _ _ _ _ _ _); exact X.
   - pose proof (rp_cancel_order s id H) as X. destruct (cancel_order c s id); exact X.
   - destruct (rpf_create_loan s x amount H) as [X _]. destruct (create_loan c s x amount); exact X.
   - destruct (rpf_repay_loan s id H) as [X _]. destruct (repay_loan c s id); exact X.
